@@ -259,9 +259,18 @@ def check_exprs(exprs, style, stats=None):
             stats.discarded["reject-unfolded:" + oracle.norm_error(rd["error"]["description"])] += 1
         return
     if "error" in rf:
-        # the folder rejected what the run-time form accepts: find out whether the value is in the domain
+        # the folder rejected what the run-time form accepts: a violation when the run-time values are in the
+        # domain (finite) - the folded program must then give exactly these values
+        desc = rf["error"]["description"]
+        try:
+            td = run_trace(rd["code"])
+        except ic10vm.VMError:
+            td = []
+        if "out of registers" not in desc and len(td) == len(exprs) and all(math.isfinite(x) for x in td):
+            raise Violation("C03:folding-rejects-an-expression-the-run-time-form-computes:" + oracle.error_class(desc).split(":")[0],
+                            {"expressions": [e.render(False, {}) for e in exprs], "error": desc[:300], "run_time_values": td, "style": style})
         if stats is not None:
-            stats.discarded["reject-folded:" + oracle.norm_error(rf["error"]["description"])] += 1
+            stats.discarded["reject-folded:" + oracle.error_class(desc)] += 1
         return
     try:
         tf, td = run_trace(rf["code"]), run_trace(rd["code"])
